@@ -86,6 +86,8 @@ type FuncContract struct {
 	Props      []string
 	NoFrame    bool
 	DynTypes   []dynDef
+	Delegates  *SpecExpr
+	DelegProps []string
 }
 
 type dynDef struct{ Case, Param, Type string }
@@ -389,6 +391,15 @@ func (e *Engine) parseContractLines(p *packages.Package, file string, lines []st
 				continue
 			}
 			cur.Ghosts = append(cur.Ghosts, specParam{fs[0], fs[1]})
+		case "delegates":
+			// delegates pkg.F(args...): the function body is exactly one call of F with these arguments
+			e, err := parseSpec(rest)
+			if err != nil || e.Kind != "go" {
+				fail("delegates needs a call expression", t)
+				continue
+			}
+			cur.Delegates = e
+			cur.DelegProps = parseTagsOf(rest)
 		case "dyn":
 			// dyn SCENARIO PARAM TYPE: in that scenario run the interface parameter holds a value of this dynamic type
 			fs := strings.Fields(rest)
@@ -806,3 +817,5 @@ func stdlibInline() map[string]bool {
 	}
 	return m
 }
+
+func parseTagsOf(s string) []string { return nil }
